@@ -12,6 +12,8 @@ static void run(const mc::Args& a, const char* tn, int max_cap, mc::Report& tota
 {
     fv::Explorer<T> ex;
     ex.args = a;
+    if (a.deadline_s > 0)
+        ex.args.deadline_s = a.deadline_s / 3; // three element types share the budget
     ex.cfg.owner = "C06";
     ex.cfg.type_name = tn;
     ex.cfg.max_cap = max_cap;
